@@ -32,6 +32,8 @@ type Config struct {
 	IndexMinKeyBytes     int     `json:",omitempty"`
 	KeepFiles            bool    `json:",omitempty"`
 
+	NoLowerInit bool `json:",omitempty"` // custom backing: LowerLevelInit is nil (the lower level starts empty)
+
 	MergeOp bool `json:",omitempty"` // install the order-sensitive merge operator
 	Alloc   bool `json:",omitempty"` // build batches with Alloc* API
 }
@@ -51,6 +53,9 @@ func (c Config) Class() string {
 		if c.NoSync {
 			s += "/nosync"
 		}
+	}
+	if c.NoLowerInit {
+		s += "/noinit"
 	}
 	if c.DeferredSort {
 		s += "/defsort"
